@@ -23,6 +23,10 @@ import (
 
 func TestMain(m *testing.M) { harness.Main(m) }
 
+type acceptAll struct{}
+
+func (acceptAll) MatchReference(string) bool { return true }
+
 type plainWriter struct{ n int }
 
 func (w *plainWriter) Write(p []byte) (int, error) { w.n += len(p); return len(p), nil }
@@ -90,6 +94,29 @@ func pipelineMode(in []byte, sched []int, eofData, light bool) (stage string, er
 			}
 			new(cm.InlineParser).Rewrite(b)
 			zblocks = append(zblocks, b)
+		}
+		// a matcher of the caller's own (not a ReferenceMap) that accepts every
+		// label: all bracketed text becomes reference links whose labels no
+		// map knows; rendering them with an empty, a nil and an unrelated map
+		// still returns
+		ap := cm.NewBlockParser(bytes.NewReader(in))
+		var ablocks []*cm.RootBlock
+		for {
+			b, e := ap.NextBlock()
+			if e != nil {
+				break
+			}
+			(&cm.InlineParser{ReferenceMatcher: acceptAll{}}).Rewrite(b)
+			ablocks = append(ablocks, b)
+		}
+		var ab bytes.Buffer
+		for _, rm := range []cm.ReferenceMap{nil, {}, {"r": cm.LinkDefinition{Destination: "/x"}}} {
+			if e := (&cm.HTMLRenderer{ReferenceMap: rm}).Render(&ab, ablocks); e != nil {
+				return stage, fmt.Errorf("Render returned %v", e)
+			}
+		}
+		if e := format.Format(&ab, ablocks); e != nil {
+			return stage, fmt.Errorf("Format returned %v", e)
 		}
 		var zb bytes.Buffer
 		if e := new(cm.HTMLRenderer).Render(&zb, zblocks); e != nil {
@@ -379,13 +406,13 @@ func runLengths(quick bool) []int {
 	var ls []int
 	max := 1100
 	if quick {
-		max = 140
+		max = 40
 	}
 	for i := 1; i <= max; i++ {
 		ls = append(ls, i)
 	}
 	if quick {
-		ls = append(ls, 255, 256, 257, 511, 512, 513, 999, 1000, 1023, 1024, 1025)
+		ls = append(ls, 63, 64, 65, 127, 128, 129, 255, 256, 257, 511, 512, 513, 999, 1000, 1023, 1024, 1025)
 	}
 	return ls
 }
@@ -422,7 +449,7 @@ func runLengthCheck(t *testing.T, p harness.Plan) {
 			}
 		}
 	}
-	harness.SetExhaustive(name, fmt.Sprintf("%d units x %d templates x run lengths 1..%d (quick: 1..140 and around 256, 512, 999, 1024), runs longer than 3000 bytes skipped", len(runUnits), len(runTemplates), ls[len(ls)-1]))
+	harness.SetExhaustive(name, fmt.Sprintf("%d units x %d templates x run lengths 1..%d (quick: 1..40 and around 64, 128, 256, 512, 999, 1024), runs longer than 3000 bytes skipped", len(runUnits), len(runTemplates), ls[len(ls)-1]))
 }
 
 func safePropLocal(c harness.Case) (r harness.Result) {
